@@ -68,3 +68,33 @@ Fixpoint crun (e : emitter) (ops : list cop) : emitter * list (list nat) :=
   | [] => (e, [])
   | o :: r => let '(e1, d) := cstep e o in let '(e2, ds) := crun e1 r in (e2, d :: ds)
   end.
+
+(* the emitter has four handler families, all keyed by the channel id (event/emitter.rs: messages, starts,
+   completes, errors); Channel::close / unsub remove the id from every one of them *)
+Inductive hkind := HMsg | HStart | HComplete | HError.
+Record hub := { hb_msg : emitter; hb_start : emitter; hb_complete : emitter; hb_error : emitter }.
+Definition hub0 : hub := {| hb_msg := []; hb_start := []; hb_complete := []; hb_error := [] |}.
+Definition hget (h : hub) (k : hkind) : emitter :=
+  match k with HMsg => hb_msg h | HStart => hb_start h | HComplete => hb_complete h | HError => hb_error h end.
+Definition hset (h : hub) (k : hkind) (v : emitter) : hub :=
+  match k with
+  | HMsg => {| hb_msg := v; hb_start := hb_start h; hb_complete := hb_complete h; hb_error := hb_error h |}
+  | HStart => {| hb_msg := hb_msg h; hb_start := v; hb_complete := hb_complete h; hb_error := hb_error h |}
+  | HComplete => {| hb_msg := hb_msg h; hb_start := hb_start h; hb_complete := v; hb_error := hb_error h |}
+  | HError => {| hb_msg := hb_msg h; hb_start := hb_start h; hb_complete := hb_complete h; hb_error := v |}
+  end.
+Definition hremove (h : hub) (id : nat) : hub :=
+  {| hb_msg := remove (hb_msg h) id; hb_start := remove (hb_start h) id;
+     hb_complete := remove (hb_complete h) id; hb_error := remove (hb_error h) id |}.
+Inductive hop := HOn (k : hkind) (id : nat) (o : copts) | HClose (id : nat) | HEmit (k : hkind) (m : msg).
+Definition hstep (h : hub) (o : hop) : hub * list nat :=
+  match o with
+  | HOn k id opts => (hset h k (register (hget h k) id opts), [])
+  | HClose id => (hremove h id, [])
+  | HEmit k m => (h, dispatch (hget h k) m)
+  end.
+Fixpoint hrun (h : hub) (ops : list hop) : hub * list (list nat) :=
+  match ops with
+  | [] => (h, [])
+  | o :: r => let '(h1, d) := hstep h o in let '(h2, ds) := hrun h1 r in (h2, d :: ds)
+  end.
